@@ -315,6 +315,12 @@ def check_api(case) -> Verdict:
         if rr.ambiguous:
             # no single reading from some place on: what precedes that place must be there (if a document is read)
             if 'error' in obs:
+                # any error - but not one located before the place up to which the document has a single reading
+                at = [c[1] for c in obs['error']['chain']] + [obs['error']['line']]
+                if None in at or at < rr.ambiguous_at:
+                    return ('error-before-no-single-reading/%s' % obs['error']['kind'],
+                            {'observed': obs['error'], 'single_reading_up_to': rr.ambiguous_at,
+                             'why_no_single_reading': rr.ambiguous})
                 return None
             bad_ = compare_phases(rr.phases, obs, prefix=True)
             return None if bad_ is None else ('before-no-single-reading/' + bad_[0], bad_[1])
@@ -539,25 +545,31 @@ def check_cli_location(case) -> Verdict:
         dd.update(detail or {})
         if plant['kind'] == 'incomplete':
             # defect model KF-C07-1 (the incomplete instruction swallows the header line): the reading with the
-            # swallowed header decides what is reported
+            # swallowed header decides what is reported - for this very document
             r2 = ref.read_document(files, root, swallow=True)
-            if r2.swallowed:
-                ok2 = False
-                if r2.ambiguous:
-                    ok2 = True  # the defect model makes no prediction
-                elif r2.error is None:
-                    # the document can be read: whatever happens, happens after syntax checking
-                    ok2 = ident not in ('SYNTAX_ERROR', 'FILE_ACCESS_ERROR', None)
+            if r2.swallowed and not r2.ambiguous:
+                if r2.error is None:
+                    # that reading is a valid document of instructions that succeed by construction (the lines
+                    # after the swallowed header are instructions of the old phase too)
+                    ok2 = ident == 'PASS' and res.exit_code == 0 and res.err == ''
+                    dd['defect_model_predicts'] = 'PASS'
                 else:
-                    e2 = {'chain': r2.error['chain'], 'file': r2.error['file'], 'lo': r2.error['lo'],
-                          'hi': r2.error['hi'], 'lines': None, 'desc': None, 'phase': None}
-                    ok2 = ident in ('SYNTAX_ERROR', 'FILE_ACCESS_ERROR') and \
-                        _check_printed_location(res.out, res.err, e2, files) is None
+                    ok2 = False
+                    for e in [r2.error] + r2.later_errors:
+                        e2 = {'chain': e['chain'], 'file': e['file'], 'lo': e['lo'], 'hi': e['hi'], 'lines': None,
+                              'desc': None, 'phase': None}
+                        want = {'syntax': 'SYNTAX_ERROR', 'access': 'FILE_ACCESS_ERROR'}[e['kind']]
+                        if ident == want and res.exit_code == _IDENT_EXIT[want] and \
+                                _check_printed_location(res.out, res.err, e2, files) is None:
+                            ok2 = True
+                            break
+                    dd['defect_model_predicts'] = r2.error
                 if ok2:
                     dd['defect_model'] = 'outcome equals the reading in which the incomplete instruction takes ' \
                                          'the following header line as its argument'
                     return Verdict(ok=False, known=KF_SWALLOW, bucket='cli-location/' + bucket, detail=dd,
-                                   labels=labels + ['known:' + KF_SWALLOW], nontrivial=True)
+                                   labels=labels + ['known:' + KF_SWALLOW,
+                                                    'known-outcome:' + (ident or 'none')], nontrivial=True)
         return fail('cli-location/' + bucket, dd, labels=labels, nontrivial=True)
 
     if res.exception or res.timed_out:
